@@ -15,6 +15,7 @@ package cabfile
 //@        unbox(v, sigBlob).TotalSize == outHeader.TotalSize && unbox(v, sigBlob).OffsetFiles == outHeader.OffsetFiles && unbox(v, sigBlob).Flags == outHeader.Flags && \
 //@        unbox(v, sigBlob).NumFolders == outHeader.NumFolders && unbox(v, sigBlob).NumFiles == outHeader.NumFiles && unbox(v, sigBlob).SetID == outHeader.SetID && \
 //@        unbox(v, sigBlob).Magic == outHeader.Magic && unbox(v, sigBlob).Version == outHeader.Version
+//@   ensures @digest_present_on_success ret1 == nil ==> ret0 != nil
 //@   requires r != nil && (hashFunc == 0 || (1 <= hashFunc && hashFunc <= 19))
 //@   allocbound 0 65535
 //@   allocbound 1 65536
@@ -47,3 +48,8 @@ package cabfile
 //@   nilreceiver
 //@   ensures (sh == nil ==> ret0 == 0) && (sh != nil ==> ret0 == sh.SignatureSize)
 //@   modifies nothing
+//@
+//@ func Parse
+//@   property C11
+//@   nopanic
+//@   requires r != nil
